@@ -7,7 +7,7 @@
    px.ValueConsumer with the calls its doer makes nested inside (Add / AddRef / AddArray / AddHash). *)
 From Coq Require Import ZArith NArith Bool List.
 From PcoreV Require Import Model.Base Model.Json Model.Pb Model.PbMem Model.JsonSer Model.JsonStr Model.JsonText Proofs.JsonProofs Proofs.PbProofs
-  Proofs.PbMemProofs Proofs.JsonSerProofs Proofs.JsonStrProofs Proofs.JsonTextProofs.
+  Proofs.PbMemProofs Proofs.JsonSerProofs Proofs.JsonStrProofs Proofs.JsonTextProofs Proofs.JsonTextLawProofs.
 Import ListNotations.
 Open Scope Z_scope.
 
@@ -515,6 +515,20 @@ Theorem C11_float_text_never_int :
   forall v, int_of_text (fix_float v) = None.
 Proof. exact (fun v => int_of_text_frac _ (has_frac_fix v)). Qed.
 Print Assumptions C11_float_text_never_int.
+
+(* The law is consistent: there IS a pair of total functions satisfying it on every bit pattern (a toy printer - the bits
+   in decimal followed by e0 - and its parser), so the hypothesis class of the C11_text_* theorems is inhabited also in the
+   form "for all floats"; that strconv satisfies it is what the correspondence run observes, float by float. *)
+Theorem C11_text_law_satisfiable :
+  exists ft pf, forall b, float_law ft pf b = true.
+Proof. exact float_law_satisfiable. Qed.
+Print Assumptions C11_text_law_satisfiable.
+
+Theorem C11_text_events_roundtrip_all_floats :
+  forall ft pf, (forall b, float_law ft pf b = true) ->
+  forall e, json_wf e = true -> exists bs, btext ft e = Ok bs /\ read_text pf bs = Ok [json_image e].
+Proof. exact text_events_roundtrip_all. Qed.
+Print Assumptions C11_text_events_roundtrip_all_floats.
 
 (* Non-vacuity: the oracle tables hold json.Marshal / strconv.ParseFloat for 1.0 and 1.5; the law holds of them; the
    bytes are [-9223372036854775808,[],{K:1.0,"b":{"__pref":3}},1.5,null,true,0] (K = the key a-quote, written "a" + backslash + quote + ""
